@@ -1774,16 +1774,17 @@ class UTPM(Ring, RawAlgorithmsMixIn):
         return self.clone()
 
     def get_shape(self):
-        return numpy.shape(self.data[0,0,...])
+        # (also without any direction, P = 0: the Jacobian of an empty value)
+        return numpy.shape(self.data)[2:]
     shape = property(get_shape)
 
 
     def get_size(self):
-        return numpy.size(self.data[0,0,...])
+        return int(numpy.prod(numpy.shape(self.data)[2:], dtype=int))
     size = property(get_size)
 
     def get_ndim(self):
-        return numpy.ndim(self.data[0,0,...])
+        return numpy.ndim(self.data) - 2
     ndim = property(get_ndim)
 
     def __len__(self):
